@@ -213,7 +213,11 @@ func (g *c09Rig) commitEnd() {
 	g.mu.Unlock()
 }
 
-func (g *c09Rig) want(key string) bool {
+// c09QuickRate: in the quick tier one instant in N is imaged (keyed by the drawn seed, the instant and its occurrence
+// number), N per kind so that the ~15 images of a history are spread over the whole history and over the kinds.
+var c09QuickRate = map[string]uint64{"after-WaitForCommit": 10, "quiescent": 12, "between-AddBlock-calls": 4, "blocks-flushed": 7}
+
+func (g *c09Rig) want(kind, key string) bool {
 	g.listMu.Lock()
 	defer g.listMu.Unlock()
 	g.occ[key]++
@@ -226,7 +230,11 @@ func (g *c09Rig) want(key string) bool {
 	}
 	h := fnv.New64a()
 	fmt.Fprintf(h, "%d|%s|%d", g.seed, key, g.occ[key])
-	return h.Sum64()%3 == 0
+	rate := c09QuickRate[kind]
+	if rate == 0 {
+		rate = 5 // the instants inside a commit
+	}
+	return h.Sum64()%rate == 0
 }
 
 // snap takes a crash image if this instant is selected and the copy is safe: no goroutine may be in the middle of
@@ -235,7 +243,7 @@ func (g *c09Rig) want(key string) bool {
 // the other writer is excluded as described at the role constants.
 func (g *c09Rig) snap(kind, ctx string, role int, firstStage bool) {
 	key := kind + "@" + ctx
-	if !g.want(key) {
+	if !g.want(kind, key) {
 		return
 	}
 	l := g.l
@@ -823,7 +831,7 @@ func c09Run(tb *testing.T, t *rapid.T, vk *vkCtx) {
 		cfg.CatchpointTracking = int64(rapid.SampledFrom([]int{1, 2}).Draw(t, "victim.catchpointTracking"))
 	}
 	rig := &c09Rig{tb: tb, cfg: cfg, genesis: w.Genesis, dir: dir, prefix: filepath.Join(dir, "victim"), occ: map[string]int{}, skipped: map[string]int{},
-		all: vkThorough(), seed: rapid.Uint64().Draw(t, "imageSeed"), maxTaken: vkN(14, 90), parked: rapid.IntRange(0, 3).Draw(t, "victim.parked") != 0}
+		all: vkThorough(), seed: rapid.Uint64().Draw(t, "imageSeed"), maxTaken: vkN(20, 220), parked: rapid.IntRange(0, 3).Draw(t, "victim.parked") != 0}
 	c.rig = rig
 	if err := rig.open(); err != nil {
 		t.Fatalf("ENGINE: OpenLedger(victim): %v", err)
@@ -928,7 +936,7 @@ func c09Bucket(n int) string {
 const c09Rule = "fault enumeration: Engine C histories of 10-26 (thorough: 10-40) blocks (general transaction mix) are fed to an on-disk ledger (drawn MaxAcctLookback 1-6, archival or not, catchpoint tracking off / interval 4 with or without data files) " +
 	"in bursts of 1-3 AddBlock calls interleaved with forced tracker commits and clean reopens (flush timer parked for 3/4 of the histories, free running for the rest); two spy trackers (first and last in the registry's tracker list) take byte copies of all ledger files at: " +
 	"block DB flushed (committedUpTo, before any tracker commit), prepareCommit (first/last), inside the tracker DB transaction before and after the real trackers' commitRound, right after every tracker DB transaction of a commit (wrapped store handle), postCommit, postCommitUnlocked before and after the catchpoint tracker's file work, " +
-	"and the feeding goroutine after every WaitForCommit/Wait return, between AddBlock calls and at quiescence (thorough: every instant; quick: a keyed third, at most 14 per history). A copy is only taken while no other goroutine can be writing a database. " +
+	"and the feeding goroutine after every WaitForCommit/Wait return, between AddBlock calls and at quiescence (thorough: every instant; quick: a keyed 1/5 of the instants inside commits, 1/7 of the block-flush instants, 1/10 of the others, at most 20 per history). A copy is only taken while no other goroutine can be writing a database. " +
 	"One evaluation = one image reopened with OpenLedger and checked: contiguous byte-identical block prefix 1..k, k >= every confirmed durable round, tracker round <= k (read from the image before opening), all account/resource/kv/creator lookups and totals at every served round equal the model of the prefix, " +
 	"remaining blocks added on top converge to the full history. Non-trivial: image taken after the block DB flush with the tracker DB behind, during prepareCommit, inside the tracker transaction, or around a catchpoint first stage. Distinct: by history, victim schedule and instant."
 
